@@ -157,6 +157,7 @@ def main(argv=None):
 
     res = mod.run(ctx)
     wall = time.time() - t0
+    build.prune_code_cache(home)
 
     known = [f for f in load_findings()
              if f.get('property') == pid and f.get('status') == 'known']
